@@ -196,8 +196,38 @@ TRUSTED = [
 ]
 
 
+LEMMAS = r'''
+#include "yv.h"
+/* dom-lemmas: consequences of is_more_specific's postcondition that best()'s
+ * harness assumes about the abstract relation dom.  Facts are arbitrary. */
+#define SPEC_AB (!(0 YV_REP16(XB)) && (0 YV_REP16(XD)))
+#define XB(k) || (k < n && a[k] != b[k] && cab[k])
+#define XD(k) || (k < n && a[k] != b[k] && cba[k])
+#define SPEC_BA (!(0 YV_REP16(YB)) && (0 YV_REP16(YD)))
+#define YB(k) || (k < n && b[k] != a[k] && cba[k])
+#define YD(k) || (k < n && b[k] != a[k] && cab[k])
+void h_dom_lemmas(void)
+{
+    /* locals: unconstrained (globals would be zero-initialised = vacuous) */
+    size_t n; class_ref a[YV_MAX_ARITY], b[YV_MAX_ARITY];
+    _Bool cab[YV_MAX_ARITY], cba[YV_MAX_ARITY];    /* cov(a_k,b_k), cov(b_k,a_k) */
+    __CPROVER_assume(n <= YV_MAX_ARITY);
+    _Bool ab = SPEC_AB, ba = SPEC_BA;
+    __CPROVER_assert(!(ab && ba), "asymmetric: never both more specific than each other");
+    _Bool same = 1;
+#define S(k) if (k < n && a[k] != b[k]) same = 0;
+    YV_REP16(S)
+    __CPROVER_assert(!same || !ab, "irreflexive: a definition is not more specific than one with the same classes");
+    YV_COVER(ab, "a more specific than b");
+    YV_COVER(!ab && !ba && !same, "incomparable");
+}
+'''
+
+
 def jobs(tier):
-    out = []
+    out = [Job(unit='specificity', config='dom-lemmas', c_text=LEMMAS, entry='h_dom_lemmas',
+               kind='proof', min_obligations=2, min_cover=2, props=['C01', 'C03', 'C06'],
+               note='lemma over the postcondition of is_more_specific (no repository code)')]
     for fn, contract, ghost, loop, props, assume in (
             ('is_more_specific', IMS_CONTRACT, IMS_GHOST, IMS_LOOP,
              ['C01', 'C03', 'C06', 'C16'],
